@@ -166,6 +166,9 @@ def _register_render():
     from . import src_render
     GROUPS['render'] = ('SrcRender.v', src_render.spec_render,
                         {'translator': src_render.RenderGroup, 'prims': src_render.PRIMS})
+    # bld-render5: SetRenderer / EnumRenderer in their own generated file
+    GROUPS['renderset'] = ('SrcRenderSet.v', src_render.spec_renderset,
+                           {'translator': src_render.RenderGroup, 'prims': src_render.SET_PRIMS})
 
 
 _register_render()
@@ -225,6 +228,8 @@ def _register_misc():
     src_shell3.register(GROUPS)
     from . import src_attach            # bld-shell3 (C09): Connection.__init__ / attach
     src_attach.register(GROUPS)
+    from . import src_attach2           # bld-inv2 (C09): sources.beancount.attach (the connection's containers)
+    src_attach2.register(GROUPS)
 
 
 _register_misc()
@@ -247,6 +252,24 @@ def _register_exprs():
 
 
 _register_exprs()
+
+
+def _register_env2():
+    """C18 (bld-env2): date_bin(relativedelta, date, date) with its `while True` loops fuelled; spec in src_env2.py"""
+    from . import src_env2
+    GROUPS['env2'] = ('SrcEnv2.v', src_env2.spec_env2, {'translator': src_env2.Env2Translator, 'prims': src_env2.PRIMS})
+
+
+_register_env2()
+
+
+def _register_hasaccount():
+    """C14 (bld-env2): has_account(context, pattern), the FROM filter function; spec and rules in src_hasaccount.py"""
+    from . import src_hasaccount
+    src_hasaccount.register(GROUPS)
+
+
+_register_hasaccount()
 
 
 def generate(group):
